@@ -102,6 +102,31 @@ theorem detailed_balance_field (pi hb e2h J2 E1 E2 q rf1 rf2 lam kT : ℝ) (hpi 
   congr 1
   simp only [dG]; ring
 
+/-! ### the pair as `Rate_Engine::Rate` evaluates it: effective reorganisation energies (generated from the source) -/
+
+/-- the outer-sphere reorganisation energy of the pair enters both directions alike: a pair whose inner forward and backward
+    reorganisation energies are equal is evaluated with equal effective ones -/
+theorem effective_reorg_equal (inner lo : ℝ) : reorg12 inner lo = reorg21 inner lo := by
+  unfold reorg12 reorg21; ring
+
+/-- positive inner and non-negative outer reorganisation energy give positive effective ones in both directions -/
+theorem effective_reorg_pos (inner lo : ℝ) (hi : 0 < inner) (hlo : 0 ≤ lo) : 0 < reorg12 inner lo ∧ 0 < reorg21 inner lo := by
+  unfold reorg12 reorg21; constructor <;> linarith
+
+/-- both pair rates are positive -/
+theorem pair_rates_pos (pi hb e2h J2 dG inner12 inner21 lo kT : ℝ) (hpi : 0 < pi) (hh : 0 < hb) (he : 0 < e2h) (hJ : 0 < J2)
+    (h12 : 0 < inner12) (h21 : 0 < inner21) (hlo : 0 ≤ lo) (hT : 0 < kT) :
+    0 < marcusrate pi hb e2h J2 dG (reorg12 inner12 lo) kT ∧ 0 < marcusrate pi hb e2h J2 (-dG) (reorg21 inner21 lo) kT :=
+  ⟨marcus_pos pi hb e2h J2 dG _ kT hpi hh he hJ (effective_reorg_pos inner12 lo h12 hlo).1 hT,
+   marcus_pos pi hb e2h J2 (-dG) _ kT hpi hh he hJ (effective_reorg_pos inner21 lo h21 hlo).2 hT⟩
+
+/-- **detailed balance of the pair rates**: equal inner reorganisation energies, any outer-sphere contribution -/
+theorem pair_detailed_balance (pi hb e2h J2 dG inner lo kT : ℝ) (hpi : 0 < pi) (hh : 0 < hb) (he : 0 < e2h) (hJ : 0 < J2)
+    (hi : 0 < inner) (hlo : 0 ≤ lo) (hT : 0 < kT) :
+    marcusrate pi hb e2h J2 dG (reorg12 inner lo) kT / marcusrate pi hb e2h J2 (-dG) (reorg21 inner lo) kT = exp (dG / kT) := by
+  rw [← effective_reorg_equal inner lo]
+  exact detailed_balance pi hb e2h J2 dG _ kT hpi hh he hJ (effective_reorg_pos inner lo hi hlo).1 hT
+
 /-- **waiting time.**  With `u = 1 - uniform[0,1) ∈ (0,1]`, the drawn time exceeds `t` exactly when `u < exp(-k t)`:
     the survival probability is `exp(-k t)`, the exponential distribution with the total escape rate `k`. -/
 theorem waiting_time (k u t : ℝ) (hk : 0 < k) (hu : 0 < u) :
